@@ -656,11 +656,18 @@ def exec_programs(trace: Dict[str, Any]) -> Dict[str, Any]:
                 env = celpy.Environment(runner_class=runner)
                 ast = env.compile(text)
                 built[pi] = (env, ast)
-            return env.program(ast, functions=_functions_for(prog, pi)).evaluate(
+            fns = _functions_for(prog, pi)
+            if isinstance(fns, dict):
+                supplied_maps.append((fns, {k: id(v) for k, v in fns.items()}))
+            return env.program(ast, functions=fns).evaluate(
                 {k: celpy.celtypes.IntType(v) for k, v in prog.get("bindings", {}).items()})
 
+        supplied_maps: List[Any] = []
         fp, _ = kit.outcome(host)
         rec["fp"] = fp
+        for m, snap in supplied_maps:
+            if {k: id(v) for k, v in m.items()} != snap:
+                rec["mapping_modified"] = sorted(set(m) ^ set(snap)) or sorted(k for k in m if id(m[k]) != snap.get(k))
         rec["calls"] = [list(c) for c in peers.HISTORY]
         rec["stale"] = [[c[0], t] for c, t in zip(peers.HISTORY, peers.TAGS) if t is not None and t != pi]
         rec["fired"] = dict(peers.FIRED)
@@ -763,6 +770,10 @@ def execute(trace: Dict[str, Any]) -> Dict[str, Any]:
             violations.append(dict(base, oracle="S2-host-function-in-base-functions",
                                    detail=rec["base_changed"],
                                    sig={"oracle": "S2-host-function-in-base-functions"}))
+        if rec.get("mapping_modified") is not None:
+            violations.append(dict(base, oracle="S2-supplied-mapping-modified",
+                                   detail=rec["mapping_modified"][:4],
+                                   sig={"oracle": "S2-supplied-mapping-modified", "runner": prog["runner"]}))
         if rec.get("stale"):
             violations.append(dict(base, oracle="S2-callable-of-another-program-invoked",
                                    detail=rec["stale"][:4], text=rec["text"],
